@@ -33,7 +33,7 @@ MECHANISMS = [('cgsmiles.pysmiles_utils', 'annotate_ez_isomers_cgsmiles'), ('cgs
 FINDING_FEATURES = {'stereo.cut_double_bond_needs_canonical_written_order': ('cut_db_later_fragment_writes_substituent_first', 'db_cut_under_reordered_insertion'),
                     'stereo.shared_marked_substituent_class_depends_on_listing': 'marked_substituent_shared_between_fragments',
                     'stereo.cut_marked_substituent_of_first_atom_depends_on_listing': 'cut_substituent_of_the_first_written_double_bond_atom'}
-SIZES = {'quick': 2500, 'thorough': 60000}
+SIZES = {'quick': 4500, 'thorough': 60000}
 
 
 def setup():
@@ -100,7 +100,7 @@ def marked_pair_is_ring_closure(r, slash_pairs):
 def make_case(rng):
     res = None
     many = rng.random() < 0.12       # cut (nearly) everywhere: more than ten fragments, two-digit coarse keys
-    tailed = not many and rng.random() < 0.15     # a small stereo unit on a long saturated tail (see gen_stereo_molecule)
+    tailed = not many and rng.random() < 0.22     # a small stereo unit on a long saturated tail (see gen_stereo_molecule)
     for _ in range(50):
         if tailed:
             res = S.gen_stereo_molecule(rng, n_db=rng.choice([1, 1, 2]), n_chiral=0, max_extra=rng.choice([0, 1, 2]), p_ring=0.0, p_tail=1.0)
@@ -225,6 +225,12 @@ def make_case(rng):
     perms = list(itertools.permutations(range(len(comps)))) if len(comps) <= 3 else [tuple(rng.sample(range(len(comps)), len(comps))) for _ in range(6)]
     rng.shuffle(perms)
     perms = perms[:6]
+    if tail and len(comps) >= 2 and part[tail[1]] != part[tail[0]]:
+        # one listing with the long tail FIRST: whatever follows it starts at node index 25 ... 127
+        tp = part[tail[1]]
+        rest_ = [i for i in range(len(comps)) if i != tp]
+        rng.shuffle(rest_)
+        perms[0] = tuple([tp] + rest_)
     feats = set()
     expect_ez = set()
     for s in stereo:
